@@ -377,3 +377,14 @@ def replay(w, rec):
         solve_and_check(rec, w["prob"], w["method"], "replay")
     else:
         rec.inconclusive.append("handle cases are deterministic: run ./check C07")
+
+
+# workloads added after the seventh round of seeded changes (DESIGN section 9): part of the rule of this check
+_RULE_ADDENDUM = 'every scalar handle read through [] and get() with and without default, incl. values that are exactly 0.0'
+_info_base = info
+
+
+def info(tier):  # noqa: F811
+    d = _info_base(tier)
+    d["rule"] = d["rule"] + "; " + _RULE_ADDENDUM
+    return d
